@@ -43,6 +43,19 @@ def f3_history():
     return {"ops": [{"op": "build", "tasks": [t1, t2], "cfg": cfg, "faults": {}}], "sources": []}
 
 
+def f23_history():
+    """persist task below a task with a tampered product; dry run and real build both forced"""
+    tu = {"id": 1, "module": 1, "deps": [101], "prods": [105], "mver": 0, "skip": False, "skipifs": [], "persist": False, "prio": 0,
+          "marks": [], "attrs": [], "after_fn": [], "after_expr": None, "use_decorator": False}
+    tp = dict(tu, id=2, deps=[105], prods=[111], persist=True)
+    cfg = {"force": False, "dry_run": False, "max_failures": None, "expression": "", "marker_expression": "", "capture": "no"}
+    return {"ops": [{"op": "set", "n": 101, "c": 5}, {"op": "build", "tasks": [tu, tp], "cfg": cfg, "faults": {}},
+                    {"op": "set", "n": 105, "c": 77},
+                    {"op": "build", "tasks": [tu, tp], "cfg": dict(cfg, force=True, dry_run=True), "faults": {}},
+                    {"op": "build", "tasks": [tu, tp], "cfg": dict(cfg, force=True), "faults": {}}], "sources": [101]}
+
+
+OPTS["C10"]["corpus"] = [f23_history()]
 for k in ("C01", "C04", "C06"):
     OPTS[k]["corpus"] = [f1_history()]
 for k in ("C08", "C09"):
@@ -83,6 +96,11 @@ def c10_twin(out, tier, seed):
         cases = []
         for i in range(n):
             h = EC.gen_history(rng, 2 * i, base, dict(OPTS["C10"], p_dry=0.0, min_builds=1, max_builds=3))
+            # the twins run under different paths, hence different set orders; a build that stops at the first
+            # failure makes the order observable (which tasks ran before the stop): no failure limit here
+            for op in h["ops"]:
+                if op["op"] == "build":
+                    op["cfg"]["max_failures"] = None
             last = [op for op in h["ops"] if op["op"] == "build"][-1]
             ops_prefix = h["ops"][:-1] if h["ops"][-1] is last else h["ops"]
             real = dict(last, cfg=dict(last["cfg"], dry_run=False))
